@@ -68,7 +68,10 @@ def shipped(name):
 
 
 dy16 = st.integers(-128, 128).map(lambda k: k / 16.0)
-dyT = st.integers(1, 160).map(lambda k: k / 8.0)
+# durations: k/8 in [1/8, 20], and (every T > 0 is allowed) very short and very long ones, all exactly representable
+dyT = st.one_of(st.integers(1, 160).map(lambda k: k / 8.0), st.integers(1, 160).map(lambda k: k / 8.0),
+                st.integers(4, 20).map(lambda k: 2.0 ** -k), st.integers(4, 20).map(lambda k: 3 * 2.0 ** -k),
+                st.integers(5, 10).map(lambda k: 2.0 ** k))
 
 
 @st.composite
@@ -149,7 +152,7 @@ def make_cells(tier):
             return {"wp0": [draw(dy16) for _ in range(nb)], "wp1": [draw(dy16) for _ in range(nb)], "T": draw(dyT)}
 
         def check_bc(case):
-            require(case["T"] > 1e-3)
+            require(case["T"] >= 2.0 ** -21)
             P = cy.vec(shipped(solve)(case["wp0"], case["wp1"], case["T"]))
             if not np.all(np.isfinite(P)):
                 raise Violation("%s returned non-finite control points %s" % (solve, P.tolist()), **case)
@@ -177,7 +180,7 @@ def make_cells(tier):
             return {"T": T, "t": t, "P": [draw(dy16) for _ in range(npts)]}
 
         def check_tr(case):
-            require(case["T"] > 1e-3)
+            require(case["T"] >= 2.0 ** -21)
             r = cy.vec(shipped(fn)(case["t"], case["T"], np.array(case["P"]).reshape(1, -1)))
             if r.shape[0] != rows:
                 raise Violation("%s returns %d rows, expected %d" % (fn, r.shape[0], rows))
@@ -198,7 +201,7 @@ def make_cells(tier):
                 "PZ": [draw(dy16) for _ in range(8)], "Ppsi": [draw(dy16) for _ in range(4)]}
 
     def check_mr(case):
-        require(case["T"] > 1e-3)
+        require(case["T"] >= 2.0 ** -21)
         row = lambda v: np.array(v).reshape(1, -1)
         outs = shipped("bezier_multirotor")(case["t"], case["T"], row(case["PX"]), row(case["PY"]), row(case["PZ"]), row(case["Ppsi"]))
         x, y, z, psi, dpsi, ddpsi, v, a, j, s = [cy.vec(o) for o in outs]
